@@ -36,6 +36,8 @@ KINDS = {
     'hdr32k-1': ['pad32767', 'chunked1', 'binary'],
     # URLs of 1.2 and 5 KB (hyphens, slashes, encoded spaces: every place a line folder would
     # break at): each named field of the record header stays one line whatever its length
+    'tokct': ['canon', 'cl', 'tokct'],        # media type with every RFC 7231 token character
+    'longct': ['lf', 'chunked1', 'longct'],   # 200-character subtype
     'longurl': ['canon', 'cl', 'text'],
     'longurl5k': ['lf', 'cl0', 'text'],
 }
@@ -43,7 +45,7 @@ LONG_PATHS = {'longurl': '/l/' + 'seg-ment/' * 130 + 'x?q=' + 'a%20b-c+' * 8,
               'longurl5k': '/L/' + 'very-long-path_segment.with,punctuation;and=more/' * 100
               + '?k=' + 'v' * 200}
 ORDER = ['canon', 'lfonly', 'chunked_tr', 'empty', 'binary', 'repeat', 'nospace', 'gzip',
-         'junk', 'bighdr', 'n404', 'embedded', 'bigbody', 'biggz', 'huge', 'hdr32k', 'hdr32k-1', 'longurl', 'longurl5k']
+         'junk', 'bighdr', 'n404', 'embedded', 'bigbody', 'biggz', 'huge', 'hdr32k', 'hdr32k-1', 'longurl', 'longurl5k', 'tokct', 'longct']
 BITS = ['compress', 'digests', 'cdx', 'rollover', 'preexisting', 'log', 'extra', 'dedup']
 
 SAME_URL = 'http://h.test/same'
